@@ -542,7 +542,7 @@ MUTANTS = [
 ]
 MUTANTS += [
     M("torch to JAX hand-over through DLPack without making the tensor contiguous", "src/aspire/utils.py", "if dtype is not None:\n        kwargs[\"dtype\"] = resolve_dtype(dtype, xp=xp)\n    return xp.asarray(x, **kwargs)",
-      "if is_torch_array(x) and is_jax_namespace(xp) and not kwargs:\n        array = xp.from_dlpack(x.detach())\n        return array if dtype is None else array.astype(resolve_dtype(dtype, xp=xp))\n    if dtype is not None:\n        kwargs[\"dtype\"] = resolve_dtype(dtype, xp=xp)\n    return xp.asarray(x, **kwargs)", "C15.helpers"),
+      "if is_torch_array(x) and is_jax_namespace(xp) and not kwargs:\n        array = xp.from_dlpack(x.detach())\n        if dtype is not None:\n            array = array.astype(resolve_dtype(dtype, xp=xp))\n        return array\n    if dtype is not None:\n        kwargs[\"dtype\"] = resolve_dtype(dtype, xp=xp)\n    return xp.asarray(x, **kwargs)", "C15.helpers"),
     M("output namespace option re-applies the instance's dtype object", _A, "samples = samples.to_namespace(xp)", "samples = samples.to_namespace(xp, dtype=self.dtype)", "C15.route"),
     M("per-step ratio returned as a Python float", _S, "return logsumexp(log_w) - math.log(len(self.x))", "return float(logsumexp(log_w) - math.log(len(self.x)))", "C15.evid"),
     M("evidence ratios narrowed to Python floats before they are recorded", "src/aspire/samplers/smc/base.py", "log_evidence_ratio = samples.log_evidence_ratio(beta)", "log_evidence_ratio = float(samples.log_evidence_ratio(beta))", "C15.evid"),
@@ -571,7 +571,7 @@ MUTANTS += [
 ]
 NEUTRALS = [
     M("torch to JAX hand-over through DLPack of a contiguous copy", "src/aspire/utils.py", "if dtype is not None:\n        kwargs[\"dtype\"] = resolve_dtype(dtype, xp=xp)\n    return xp.asarray(x, **kwargs)",
-      "if is_torch_array(x) and is_jax_namespace(xp) and not kwargs:\n        array = xp.from_dlpack(x.detach().contiguous())\n        return array if dtype is None else array.astype(resolve_dtype(dtype, xp=xp))\n    if dtype is not None:\n        kwargs[\"dtype\"] = resolve_dtype(dtype, xp=xp)\n    return xp.asarray(x, **kwargs)"),
+      "if is_torch_array(x) and is_jax_namespace(xp) and not kwargs:\n        array = xp.from_dlpack(x.detach().contiguous())\n        if dtype is not None:\n            array = array.astype(resolve_dtype(dtype, xp=xp))\n        return array\n    if dtype is not None:\n        kwargs[\"dtype\"] = resolve_dtype(dtype, xp=xp)\n    return xp.asarray(x, **kwargs)"),
     M("log N taken with NumPy but converted to a Python float", _S, "asarray(logsumexp(self.log_w), self.xp) - math.log(\n            len(self.x)\n        )", "asarray(logsumexp(self.log_w), self.xp) - float(np.log(len(self.x)))"),
     M("sampler dtype through a local", "src/aspire/samplers/importance.py", "x, log_q = self.prior_flow.sample_and_log_prob(n_samples)\n        samples = Samples(\n            x,\n            log_q=log_q,\n            xp=self.xp,\n            parameters=self.parameters,\n            dtype=self.dtype,",
       "x, log_q = self.prior_flow.sample_and_log_prob(n_samples)\n        precision = self.dtype\n        samples = Samples(\n            x,\n            log_q=log_q,\n            xp=self.xp,\n            parameters=self.parameters,\n            dtype=precision,"),
